@@ -1,0 +1,117 @@
+//go:build verif
+
+// Verification contracts for cmd/broker, property C24 (with ACLs on, unauthorized requests change nothing and
+// leak nothing). Comment-only; read by /verif/govc.
+//
+// Two kinds of static clauses (govc/guards.go), no symbolic execution of the large kmsg handlers:
+//   guarded       every call site of an effectful function is dominated by the successful outcome of the
+//                 matching allow* check ON THE SAME RESOURCE (same topic / same request / same group value);
+//   only_callers  the effectful functions are reachable only through the call sites that carry such a guard.
+// The permission demanded is the one the repository's own model uses for the handler's explicit effect
+// (produce / fetch on the topic, group_write / group_read / group_admin on the group, cluster admin).
+// allowTopic / allowGroup / allowCluster are `true` exactly when enforcement is off or Authorizer.Allows says
+// yes (contracts below; Allows itself is property C23).
+
+package main
+
+// ---- the allow* helpers: what a successful check means ----
+//@ func (h *handler) allowTopic
+//@   ensures [C24.allow_topic_def] result == (h.authorizer == nil || !h.authorizer.enabled || ret_allows)
+//@   ghost ret_allows bool = false
+//@   at Allows#1 before assert [C24.allow_topic_asks_authorizer] arg0 == principal && arg1 == action && arg2 == "topic" && arg3 == topic
+//@   at Allows#1 after set ret_allows = ret0
+//@ func (h *handler) allowGroup
+//@   ensures [C24.allow_group_def] result == (h.authorizer == nil || !h.authorizer.enabled || ret_allows)
+//@   ghost ret_allows bool = false
+//@   at Allows#1 before assert [C24.allow_group_asks_authorizer] arg0 == principal && arg1 == action && arg2 == "group" && arg3 == group
+//@   at Allows#1 after set ret_allows = ret0
+//@ func (h *handler) allowCluster
+//@   ensures [C24.allow_cluster_def] result == (h.authorizer == nil || !h.authorizer.enabled || ret_allows)
+//@   ghost ret_allows bool = false
+//@   at Allows#1 before assert [C24.allow_cluster_asks_authorizer] arg0 == principal && arg1 == action && arg2 == "cluster" && arg3 == "cluster"
+//@   at Allows#1 after set ret_allows = ret0
+
+//@ func (h *handler) allowAdmin
+//@   ghost ret_cluster bool = false
+//@   at allowCluster#1 before assert [C24.allow_admin_asks_cluster_admin] arg0 == principal && arg1 == "admin"
+//@   at allowCluster#1 after set ret_cluster = ret0
+//@   ensures [C24.allow_admin_def] result == ret_cluster
+
+// ---- request dispatch ----
+//@ func (h *handler) Handle
+//@   static_only C24
+//@   guarded [C24.metadata_autocreate_needs_topic_permission] ensureTopic(_, _, $n, _) by allowAutoCreate(_, _, $n) is true
+//@   guarded [C24.join_group_needs_group_write] JoinGroup(_, _, $r) by allowGroup(_, _, $r.Group, "group_write") is true
+//@   guarded [C24.sync_group_needs_group_write] SyncGroup(_, _, $r) by allowGroup(_, _, $r.Group, "group_write") is true
+//@   guarded [C24.heartbeat_needs_group_write] Heartbeat(_, _, $r) by allowGroup(_, _, $r.Group, "group_write") is true
+//@   guarded [C24.leave_group_needs_group_write] LeaveGroup(_, _, $r) by allowGroup(_, _, $r.Group, "group_write") is true
+//@   guarded [C24.offset_commit_needs_group_write] OffsetCommit(_, _, $r) by allowGroup(_, _, $r.Group, "group_write") is true
+//@   guarded [C24.offset_fetch_needs_group_read] OffsetFetch(_, _, $r) by allowGroup(_, _, $r.Group, "group_read") is true
+//@   guarded [C24.create_topics_needs_admin] handleCreateTopics(_, _, _, _) by allowAdmin(_, _) is true
+//@   guarded [C24.delete_topics_needs_admin] handleDeleteTopics(_, _, _, _) by allowAdmin(_, _) is true
+//@   guarded [C24.list_offsets_needs_fetch_on_every_topic] handleListOffsets(_, _, _, $r) by allowTopics(_, _, topicsFromListOffsets($r), "fetch") is true
+//@   only_callers [C24.entry.handleProduce] cmd/broker.handler.handleProduce: cmd/broker.handler.Handle
+//@   only_callers [C24.entry.handleFetch] cmd/broker.handler.handleFetch: cmd/broker.handler.Handle
+//@   only_callers [C24.entry.handleCreateTopics] cmd/broker.handler.handleCreateTopics: cmd/broker.handler.Handle
+//@   only_callers [C24.entry.handleDeleteTopics] cmd/broker.handler.handleDeleteTopics: cmd/broker.handler.Handle
+//@   only_callers [C24.entry.handleListOffsets] cmd/broker.handler.handleListOffsets: cmd/broker.handler.Handle
+//@   only_callers [C24.entry.handleAlterConfigs] cmd/broker.handler.handleAlterConfigs: cmd/broker.handler.Handle$6
+//@   only_callers [C24.entry.handleCreatePartitions] cmd/broker.handler.handleCreatePartitions: cmd/broker.handler.Handle$7
+//@   only_callers [C24.entry.handleOffsetForLeaderEpoch] cmd/broker.handler.handleOffsetForLeaderEpoch: cmd/broker.handler.Handle$4
+//@   only_callers [C24.entry.ensureTopic] cmd/broker.handler.ensureTopic: cmd/broker.handler.Handle, cmd/broker.handler.getPartitionLog
+//@   only_callers [C24.entry.getPartitionLog] cmd/broker.handler.getPartitionLog: cmd/broker.handler.handleProduce, cmd/broker.handler.handleFetch, cmd/broker.handler.handleListOffsets$1
+//@   only_callers [C24.entry.store_CreateTopic] pkg/metadata.Store.CreateTopic: cmd/broker.handler.handleCreateTopics, cmd/broker.handler.ensureTopic, pkg/metadata.EtcdStore.CreateTopic
+//@   only_callers [C24.entry.store_DeleteTopic] pkg/metadata.Store.DeleteTopic: cmd/broker.handler.handleDeleteTopics
+//@   only_callers [C24.entry.store_UpdateTopicConfig] pkg/metadata.Store.UpdateTopicConfig: cmd/broker.handler.handleAlterConfigs
+//@   only_callers [C24.entry.store_CreatePartitions] pkg/metadata.Store.CreatePartitions: cmd/broker.handler.handleCreatePartitions
+//@   only_callers [C24.entry.coordinator_JoinGroup] pkg/broker.GroupCoordinator.JoinGroup: cmd/broker.handler.Handle
+//@   only_callers [C24.entry.coordinator_SyncGroup] pkg/broker.GroupCoordinator.SyncGroup: cmd/broker.handler.Handle
+//@   only_callers [C24.entry.coordinator_Heartbeat] pkg/broker.GroupCoordinator.Heartbeat: cmd/broker.handler.Handle
+//@   only_callers [C24.entry.coordinator_LeaveGroup] pkg/broker.GroupCoordinator.LeaveGroup: cmd/broker.handler.Handle
+//@   only_callers [C24.entry.coordinator_OffsetCommit] pkg/broker.GroupCoordinator.OffsetCommit: cmd/broker.handler.Handle
+//@   only_callers [C24.entry.coordinator_OffsetFetch] pkg/broker.GroupCoordinator.OffsetFetch: cmd/broker.handler.Handle
+//@   only_callers [C24.entry.coordinator_DeleteGroups] pkg/broker.GroupCoordinator.DeleteGroups: cmd/broker.handler.Handle$8
+//@   only_callers [C24.entry.AppendBatch] pkg/storage.PartitionLog.AppendBatch: cmd/broker.handler.handleProduce
+//@   only_callers [C24.entry.Read] pkg/storage.PartitionLog.Read: cmd/broker.handler.handleFetch
+
+// the auto-create permission of a metadata request: true only if the produce check or the fetch check on exactly
+// this principal and topic succeeded
+//@ func (h *handler) allowAutoCreate
+//@   ghost okProduce bool = false
+//@   ghost okFetch bool = false
+//@   at allowTopic#1 before assert [C24.autocreate_asks_produce_on_same_topic] arg0 == principal && arg1 == topic && arg2 == "produce"
+//@   at allowTopic#1 after set okProduce = ret0
+//@   at allowTopic#2 before assert [C24.autocreate_asks_fetch_on_same_topic] arg0 == principal && arg1 == topic && arg2 == "fetch"
+//@   at allowTopic#2 after set okFetch = ret0
+//@   ensures [C24.autocreate_needs_produce_or_fetch] result == (okProduce || okFetch)
+
+// closures of Handle (admin APIs run inside withAdminMetrics)
+//@ func (h *handler) Handle$4
+//@   static_only C24
+//@   guarded [C24.offset_for_leader_epoch_needs_fetch_on_every_topic] handleOffsetForLeaderEpoch(_, _, _, $r) by allowTopics(_, _, topicsFromOffsetForLeaderEpoch($r), "fetch") is true
+//@ func (h *handler) Handle$6
+//@   static_only C24
+//@   guarded [C24.alter_configs_needs_admin] handleAlterConfigs(_, _, _, _) by allowAdmin(_, _) is true
+//@ func (h *handler) Handle$7
+//@   static_only C24
+//@   guarded [C24.create_partitions_needs_admin] handleCreatePartitions(_, _, _, _) by allowAdmin(_, _) is true
+//@ func (h *handler) Handle$8
+//@   static_only C24
+//@   guarded_where [C24.delete_groups_list_holds_only_permitted_groups] append(@allowed, $g) by allowGroup(_, _, $g, "group_admin") is true
+//@ func (h *handler) Handle$2
+//@   static_only C24
+//@   guarded_where [C24.describe_groups_list_holds_only_permitted_groups] append(@allowed, $g) by allowGroup(_, _, $g, "group_read") is true
+
+// ---- data path ----
+//@ func (h *handler) handleProduce
+//@   static_only C24
+//@   guarded [C24.produce_log_needs_produce_permission] getPartitionLog(_, _, $t, _) by allowTopic(_, _, $t, "produce") is true
+//@   guarded [C24.append_needs_produce_permission] AppendBatch(getPartitionLog(_, _, $t, _), _, _) by allowTopic(_, _, $t, "produce") is true
+//@   guarded [C24.flush_needs_produce_permission] Flush(getPartitionLog(_, _, $t, _), _) by allowTopic(_, _, $t, "produce") is true
+//@ func (h *handler) handleFetch
+//@   static_only C24
+//@   guarded [C24.fetch_log_needs_fetch_permission] getPartitionLog(_, _, $t, _) by allowTopic(_, _, $t, "fetch") is true
+//@   guarded [C24.read_needs_fetch_permission] Read(getPartitionLog(_, _, $t, _), _, _, _) by allowTopic(_, _, $t, "fetch") is true
+//@ func (h *handler) handleDescribeConfigs
+//@   static_only C24
+//@   guarded [C24.describe_configs_needs_fetch_permission] FetchTopicConfig(_, $n) by allowTopic(_, _, $n, "fetch") is true
